@@ -10,6 +10,10 @@
   Header words (harness/clients/striped.cpp, hidden variants `tie_striping` / `tie_refinable`):
     `policy=striping|refinable cap=<initial bucket count = lock count> num=<n> den=<d> hmul=<m>`
   with the resizing policy "resize when size * den > bucket_count * num" and the hash function `key ↦ key * hmul`.
+  The word `recheck=0` (never printed by the harness; added by hand to the header of traces of the seeded mutant
+  /verif/seeded/C16-refinable-owner-recheck) selects the machine WITHOUT the re-check of `refinable::acquire`, which is
+  outside the theorems: it serves to show that the mutant's traces are runs of that machine and reach states that violate
+  `okB` (an item in a bucket where no lookup searches for it).
 
   `okB` is an executable part of the invariant (`C16_striped_no_loss_no_dup`: every item sits in bucket
   `h key % capacity`, no bucket holds a key twice; lock words and ghost holders agree), evaluated by the driver after
@@ -39,7 +43,8 @@ def cfgOf (ws : List String) : Cfg :=
     k0 := log2c ((cfgNat "cap" ws).getD 16)
     num := (cfgNat "num" ws).getD 1
     den := (cfgNat "den" ws).getD 1
-    h := fun k => k.toNat * hmul }
+    h := fun k => k.toNat * hmul
+    recheck := !(ws.contains "recheck=0") }
 
 def initCfg (ws : List String) : RSt := ⟨cfgOf ws, init (cfgOf ws)⟩
 
@@ -50,9 +55,10 @@ def relevant (loc : String) : Bool :=
 def okB (r : RSt) : Bool :=
   let s := r.st
   let cap := s.mask + 1
-  (List.range cap).all fun b =>
+  ((List.range cap).all fun b =>
     (s.bkt b).all (fun e => r.cfg.h e.1 % cap == b) &&
-    decide (((s.bkt b).map (·.1)).Nodup)
+    decide (((s.bkt b).map (·.1)).Nodup)) &&
+  ((List.range (s.gen + 1)).all fun g => (List.range (s.asz g)).all fun c => s.lk g c == (s.holder g c).isSome)
 
 /-- Every run of the replay model is a run of the machine (same schedule, same observations, same states). -/
 theorem modelR_run (sched : List (Tid × Act)) :
